@@ -22,13 +22,13 @@ def _root(e):
   return e
 
 
-def _is_state_expr(e, aliases, module_consts, state_attrs=None):
+def _is_state_expr(e, aliases, module_consts, state_attrs=None, memoised=()):
   """Expression that evaluates to (a view of) an existing shared object."""
   if isinstance(e, ast.Name):
     return e.id in aliases or e.id in module_consts
   if isinstance(e, ast.Attribute):
     if e.attr in ('T', 'real', 'imag', 'flat'):
-      return _is_state_expr(e.value, aliases, module_consts, state_attrs)
+      return _is_state_expr(e.value, aliases, module_consts, state_attrs, memoised)
     r = _root(e)
     if not isinstance(r, ast.Name):
       return False
@@ -41,17 +41,19 @@ def _is_state_expr(e, aliases, module_consts, state_attrs=None):
       x = x.value
     return False
   if isinstance(e, ast.Subscript):
-    return _is_state_expr(e.value, aliases, module_consts, state_attrs)   # basic indexing gives a view
+    return _is_state_expr(e.value, aliases, module_consts, state_attrs, memoised)   # basic indexing gives a view
   if isinstance(e, ast.IfExp):
-    return _is_state_expr(e.body, aliases, module_consts, state_attrs) or _is_state_expr(e.orelse, aliases, module_consts, state_attrs)
+    return _is_state_expr(e.body, aliases, module_consts, state_attrs, memoised) or _is_state_expr(e.orelse, aliases, module_consts, state_attrs, memoised)
   if isinstance(e, ast.Call):
     f = e.func
     name = f.attr if isinstance(f, ast.Attribute) else getattr(f, 'id', '')
+    if name in memoised:
+      return True   # a memoised (lru_cache / cache) function hands the same object to every caller
     if name in VIEW_CALLS:
       if isinstance(f, ast.Attribute) and isinstance(f.value, ast.Name) and f.value.id in ('np', 'jnp', 'numpy') and e.args:
-        return _is_state_expr(e.args[0], aliases, module_consts, state_attrs)
+        return _is_state_expr(e.args[0], aliases, module_consts, state_attrs, memoised)
       if isinstance(f, ast.Attribute):
-        return _is_state_expr(f.value, aliases, module_consts, state_attrs)
+        return _is_state_expr(f.value, aliases, module_consts, state_attrs, memoised)
   return False
 
 
@@ -67,7 +69,7 @@ def _own_nodes(fn):
       stack.append(c)
 
 
-def inplace_updates(tree, module_consts=(), state_attrs=None):
+def inplace_updates(tree, module_consts=(), state_attrs=None, memoised=()):
   """[(function name, lineno, statement text, aliased expression text)] for one module tree."""
   out = []
   module_consts = set(module_consts)
@@ -100,7 +102,7 @@ def inplace_updates(tree, module_consts=(), state_attrs=None):
         if name in aliases:
           continue
         for v in vals:
-          if _is_state_expr(v, aliases, module_consts, state_attrs):
+          if _is_state_expr(v, aliases, module_consts, state_attrs, memoised):
             aliases[name] = ast.unparse(v)
             changed = True
             break
@@ -120,7 +122,7 @@ def inplace_updates(tree, module_consts=(), state_attrs=None):
         if isinstance(r, ast.Name):
           if ctor and r.id == 'self':
             return None   # an object under construction fills its own fields
-          if _is_state_expr(base, aliases, module_consts, state_attrs):
+          if _is_state_expr(base, aliases, module_consts, state_attrs, memoised):
             return ast.unparse(base)
       return None
     for n in _own_nodes(fn):
